@@ -12,6 +12,9 @@ type Subst map[ssa.Value]ssa.Value
 
 // Res resolves v through the substitution (repeatedly).
 func (s Subst) Res(v ssa.Value) ssa.Value {
+	if s == nil {
+		return v
+	}
 	for i := 0; i < 8; i++ {
 		n, ok := s[v]
 		if !ok {
